@@ -375,7 +375,7 @@ pub fn op_strategy(w: &Weights) -> BoxedStrategy<Op> {
                 1 => Op::Close { t, v, limit: s1 % 5 },
                 2 => Op::Deposit { t, v, amt: k1 },
                 3 => Op::Withdraw { t, v, amt: k1 },
-                4 => Op::Liquidate { who: s2, v, target: t, limit: s1 % 3 },
+                4 => Op::Liquidate { who: s2, v, target: t, limit: s1 % 5 },
                 5 => Op::LiquidateWeakest { who: s2, v },
                 6 => Op::PayFunding { who: s2, v },
                 7 => Op::NextBlock { dt: s1 },
